@@ -210,12 +210,15 @@ def merged_outer_cms(t, out=None):
     return out
 
 
-def make_script(rng, t, ns, ncm, merged_suppress=False):
+def make_script(rng, t, ns, ncm, merged_suppress=False, boxes=True):
     wc = while_cond_sites(t)
     sc = {}
     for k in range(1, ns + 1):
         n = rng.randint(1, 3)
         vals = [rng.choice(SCRIPT_POOL) for _ in range(n)]
+        if boxes and ns >= 2 and rng.random() < 0.15:
+            # an object whose truthiness flips whenever some (other) site is called
+            vals[rng.randrange(n)] = ["box", rng.choice([x for x in range(1, ns + 1) if x != k]), []]
         if k in wc:
             vals[-1] = rng.choice(FALSY)
         sc[k] = vals
